@@ -102,33 +102,57 @@ func replayTreeBehaviour(w *ndWriter, b treeBehaviour) {
 	var under func(i, x int) bool
 	under = func(i, x int) bool { return i == x || (nodes[i-1].par != 0 && under(nodes[i-1].par, x)) }
 	create := func(kind string, p int, lazy bool) {
-		n := &mtNode{kind: kind, par: p, lazy: lazy}
-		var err error
-		if kind == "sub" {
-			var s kcache.Subscription
-			s, err = pubOf(p).Subscribe()
-			if err == nil {
-				n.sub, n.done = s, s.Done()
-			}
-		} else {
-			var c kcache.Controller
-			c, err = pubOf(p).Clone()
-			if err == nil {
-				n.pub, n.done = c, c.Done()
-			}
+		type made struct {
+			n   *mtNode
+			err error
 		}
-		if err != nil {
-			errs++
-			return
+		ch := make(chan made, 1)
+		pb := pubOf(p)
+		go func() {
+			n := &mtNode{kind: kind, par: p, lazy: lazy}
+			var err error
+			if kind == "sub" {
+				var s kcache.Subscription
+				s, err = pb.Subscribe()
+				if err == nil {
+					n.sub, n.done = s, s.Done()
+				}
+			} else {
+				var c kcache.Controller
+				c, err = pb.Clone()
+				if err == nil {
+					n.pub, n.done = c, c.Done()
+				}
+			}
+			ch <- made{n, err}
+		}()
+		select {
+		case m := <-ch:
+			if m.err != nil {
+				errs++
+				return
+			}
+			nodes = append(nodes, m.n)
+		case <-time.After(2 * time.Second):
+			errs += 100 // a constructor that does not return
 		}
-		nodes = append(nodes, n)
+	}
+	// every API call of the replay runs under a watchdog: a call that does not return is left behind and the
+	// observations go on (they then differ from the prediction)
+	guarded := func(fn func()) {
+		ret := make(chan struct{})
+		go func() { fn(); close(ret) }()
+		select {
+		case <-ret:
+		case <-time.After(2 * time.Second):
+		}
 	}
 	closeNode := func(x int) {
 		n := nodes[x-1]
 		if n.sub != nil {
-			n.sub.Close()
+			guarded(n.sub.Close)
 		} else {
-			n.pub.Close()
+			guarded(n.pub.Close)
 		}
 		for i := range nodes {
 			if under(i+1, x) {
@@ -143,7 +167,8 @@ func replayTreeBehaviour(w *ndWriter, b treeBehaviour) {
 		case "EM":
 			if !rootDead {
 				emitted++
-				psub.Send(kcache.NewEvent(kcache.EventTypeUpdate, mkPod("a", emitted, 0)))
+				ev := kcache.NewEvent(kcache.EventTypeUpdate, mkPod("a", emitted, 0))
+				guarded(func() { psub.Send(ev) })
 			}
 		case "SB0":
 			create("sub", 0, false)
@@ -169,7 +194,7 @@ func replayTreeBehaviour(w *ndWriter, b treeBehaviour) {
 		case "CR":
 			if !rootDead {
 				rootDead = true
-				psub.Close()
+				guarded(psub.Close)
 				for i := range nodes {
 					nodes[i].dead = true
 				}
@@ -200,8 +225,7 @@ func replayTreeBehaviour(w *ndWriter, b treeBehaviour) {
 		hist = append(hist, fmt.Sprintf(`{"nodes":[%s],"errs":%d}`, strings.Join(ns, ","), errs))
 	}
 	w.write2(fmt.Sprintf(`{"k":"modestree","stim":%s,"quiet":%v,"pred":%s,"obs":[%s]}`, jsStrs(b.Stim), quiet, string(b.Hist), strings.Join(hist, ",")))
-	psub.Close()
-	root.Close()
+	guarded(func() { psub.Close(); root.Close() })
 	cancel()
 	for _, n := range nodes {
 		select {
